@@ -253,6 +253,236 @@ theorem step_inv (FS : FinderSound F d dict 273) (P : FastParams) (hP : P.ok) (n
     have := sf.len273
     omega
 
+theorem limit_val : Consts.LZMA2_UNCOMPRESSED_LIMIT = 2096879 := rfl
+
+theorem encodeFor_succ (P : FastParams) (nice : Nat) (pr : Params) (lim fuel : Nat) (s : EncSt σ) :
+    encodeFor F P nice pr d lim (fuel + 1) s =
+      if s.unc ≤ Consts.LZMA2_UNCOMPRESSED_LIMIT ∧ s.pending ≤ Consts.LZMA2_COMPRESSED_LIMIT then
+        if s.p < lim then encodeFor F P nice pr d lim fuel (step F P nice pr d s) else (s, false)
+      else (s, true) := rfl
+
+/-- `encode_for_lzma2` keeps the invariant; the chunk never exceeds `2^21` bytes -/
+theorem encodeFor_inv (FS : FinderSound F d dict 273) (P : FastParams) (hP : P.ok) (nice : Nat) (pr : Params)
+    (dictBuf : Nat) (hdb : min dict d.size ≤ dictBuf) (h32 : dict ≤ 2 ^ 32)
+    (c0 : Coder) (h0 : Hist) (ps0 : Probs) (lim : Nat) (hlim : lim ≤ d.size) :
+    ∀ (fuel : Nat) (s : EncSt σ), SInv FS pr dictBuf c0 h0 ps0 s → s.unc ≤ 2 ^ 21 →
+      SInv FS pr dictBuf c0 h0 ps0 (encodeFor F P nice pr d lim fuel s).1 ∧
+      (encodeFor F P nice pr d lim fuel s).1.unc ≤ 2 ^ 21 ∧
+      s.unc ≤ (encodeFor F P nice pr d lim fuel s).1.unc
+  | 0, s, hi, hu => ⟨hi, hu, Nat.le_refl _⟩
+  | fuel + 1, s, hi, hu => by
+    rw [encodeFor_succ]
+    have hL := limit_val
+    split
+    · next hc =>
+      split
+      · next hpl =>
+        have hs := step_inv FS P hP nice pr dictBuf hdb h32 c0 h0 ps0 s hi (by omega)
+        have ih := encodeFor_inv FS P hP nice pr dictBuf hdb h32 c0 h0 ps0 lim hlim fuel _ hs.1
+          (by have := hc.1; have := hs.2.2; omega)
+        exact ⟨ih.1, ih.2.1, by have := hs.2.1; have := ih.2.2; omega⟩
+      · exact ⟨hi, hu, Nat.le_refl _⟩
+    · exact ⟨hi, hu, Nat.le_refl _⟩
+
+/-! ## slices of the data -/
+
+theorem sliceNat_length (d : Array UInt8) (a n : Nat) : (sliceNat d a n).length = n := by
+  unfold sliceNat
+  rw [List.length_map, List.length_range]
+
+theorem sliceNat_append (d : Array UInt8) (a k m : Nat) :
+    sliceNat d a (k + m) = sliceNat d a k ++ sliceNat d (a + k) m := by
+  unfold sliceNat
+  rw [List.range_add, List.map_append, List.map_map]
+  congr 1
+  apply List.map_congr_left
+  intro i _
+  show byteAt d (a + (k + i)) = byteAt d (a + k + i)
+  rw [Nat.add_assoc]
+
+theorem sliceNat_split (d : Array UInt8) (a b e : Nat) (hab : a ≤ b) (hbe : b ≤ e) :
+    sliceNat d a (e - a) = sliceNat d a (b - a) ++ sliceNat d b (e - b) := by
+  have h1 : e - a = (b - a) + (e - b) := by omega
+  have h2 : a + (b - a) = b := by omega
+  rw [h1, sliceNat_append, h2]
+
+theorem sliceNat_zero (d : Array UInt8) (a : Nat) : sliceNat d a 0 = [] := rfl
+
+theorem sliceNat_succ (d : Array UInt8) (a n : Nat) :
+    sliceNat d a (n + 1) = byteAt d a :: sliceNat d (a + 1) n := by
+  rw [Nat.add_comm n 1, sliceNat_append]
+  rfl
+
+theorem pushAll_slice (d : Array UInt8) : ∀ (n a : Nat) (h : Hist), HistIs d a h →
+    HistIs d (a + n) (Lzma2.pushAll h (sliceNat d a n))
+  | 0, a, h, hh => hh
+  | n + 1, a, h, hh => by
+    rw [sliceNat_succ, Lzma2.pushAll]
+    have := pushAll_slice d n (a + 1) _ hh.push
+    have e : a + 1 + n = a + (n + 1) := by omega
+    rw [e] at this
+    exact this
+
+/-- the bytes a chunk adds to the history are the bytes of the data -/
+theorem extract_slice {d : Array UInt8} {a b : Nat} {h' : Hist} (hh' : HistIs d b h') (hab : a ≤ b) :
+    (h'.extract a b).toList = sliceNat d a (b - a) := by
+  obtain ⟨hs, hb⟩ := hh'
+  apply List.ext_getElem
+  · rw [Array.length_toList, Array.size_extract, sliceNat_length, hs, Nat.min_self]
+  · intro i h1 h2
+    rw [Array.length_toList, Array.size_extract, hs, Nat.min_self] at h1
+    rw [Array.getElem_toList, Array.getElem_extract]
+    have := hb (a + i) (by omega)
+    rw [Array.getD_eq_getD_getElem?, Array.getElem?_eq_getElem (by omega)] at this
+    simp only [Option.getD_some] at this
+    rw [this]
+    simp only [sliceNat, List.getElem_map, List.getElem_range]
+
+/-! ## what a segment's events must satisfy -/
+
+/-- Validity of an event list as seen from the writer's side: `fresh` = the next LZMA chunk starts from the
+    initial coder state and fresh tables (a state reset or new properties are announced), `c` / `ps` = the state
+    the previous LZMA chunk left, `h` = the history, `data` = what the events denote. -/
+def EvsOk (pr : Params) (dictBuf : Nat) : List Ev → Bool → Coder → Probs → Hist → List Nat → Prop
+  | [], _, _, _, _, data => data = []
+  | .lzma unc parse body :: rest, fresh, c, ps, h, data =>
+    ∃ (c' : Coder) (h' : Hist) (data' : List Nat),
+      parseRun dictBuf parse (if fresh then Coder.init else c) h = some (c', h') ∧
+      h'.size = h.size + unc ∧ 1 ≤ unc ∧ unc ≤ 2 ^ 21 ∧
+      body = (encFold pr parse (if fresh then Coder.init else c) h
+                (if fresh then Lzma2.freshProbs pr else ps) Enc.init).2.bytes ∧
+      body.length ≤ 65536 ∧
+      data = (h'.extract h.size h'.size).toList ++ data' ∧
+      EvsOk pr dictBuf rest false c'
+        (encFold pr parse (if fresh then Coder.init else c) h
+          (if fresh then Lzma2.freshProbs pr else ps) Enc.init).1 h' data'
+  | .stored raw :: rest, _, c, ps, h, data =>
+    ∃ data' : List Nat, 1 ≤ raw.length ∧ data = raw ++ data' ∧
+      EvsOk pr dictBuf rest true c ps (Lzma2.pushAll h raw) data'
+  | .restart :: _, _, _, _, _, _ => False
+
+theorem repsLt_init (m : Nat) (hm : 1 ≤ m) : RepsLt Coder.init m := ⟨hm, hm, hm, hm⟩
+
+theorem wmax_val : Consts.W_COMPRESSED_SIZE_MAX = 65536 := rfl
+
+/-- the events of a segment from a chunk boundary on are valid and denote the rest of the segment -/
+theorem finishLoop_ok (FS : FinderSound F d dict 273) (P : FastParams) (hP : P.ok) (nice : Nat) (pr : Params)
+    (dictBuf : Nat) (hd1 : 1 ≤ dict) (hdb : min dict d.size ≤ dictBuf) (h32 : dict ≤ 2 ^ 32) :
+    ∀ (fuel : Nat) (s : EncSt σ) (acc evs : List Ev) (h0 : Hist) (fresh : Bool) (c : Coder) (ps : Probs),
+      finishLoop F P nice pr d fuel s acc = some evs →
+      SInv FS pr dictBuf s.c h0 s.probs s → s.unc = 0 → s.syms = [] →
+      s.c = (if fresh then Coder.init else c) → s.probs = (if fresh then Lzma2.freshProbs pr else ps) →
+      ∃ evs', evs = acc.reverse ++ evs' ∧
+        EvsOk pr dictBuf evs' fresh c ps h0 (sliceNat d h0.size (d.size - h0.size))
+  | 0, s, acc, evs, h0, fresh, c, ps, hf, _, _, _, _, _ => by
+    simp only [finishLoop] at hf
+    exact absurd hf (by simp)
+  | fuel + 1, s, acc, evs, h0, fresh, c, ps, hf, hinv, hu0, hsy, hc, hps => by
+    simp only [finishLoop] at hf
+    have hsz0 : h0.size = s.p := by
+      obtain ⟨h, _, _, hsz, _⟩ := hinv
+      omega
+    split at hf
+    · next hlt =>
+      rw [hu0, Nat.sub_zero] at hlt
+      -- `encode_for_lzma2`
+      have he := encodeFor_inv FS P hP nice pr dictBuf hdb h32 s.c h0 s.probs d.size (Nat.le_refl _)
+        (d.size + 1) s hinv (by rw [hu0]; omega)
+      -- at least one symbol is coded
+      have hpos : 1 ≤ (encodeFor F P nice pr d d.size (d.size + 1) s).1.unc := by
+        rw [encodeFor_succ]
+        have hpend : s.pending = 5 := by
+          obtain ⟨h, _, _, _, _, _, _, _, _, _, _, _, hrc, hol⟩ := hinv
+          unfold EncSt.pending
+          rw [hol, hrc, hsy]
+          rfl
+        have hcond : s.unc ≤ Consts.LZMA2_UNCOMPRESSED_LIMIT ∧ s.pending ≤ Consts.LZMA2_COMPRESSED_LIMIT := by
+          rw [hu0, hpend]
+          decide
+        rw [if_pos hcond, if_pos hlt]
+        have hs := step_inv FS P hP nice pr dictBuf hdb h32 s.c h0 s.probs s hinv hlt
+        have hm := encodeFor_inv FS P hP nice pr dictBuf hdb h32 s.c h0 s.probs d.size (Nat.le_refl _)
+          d.size _ hs.1 (by have := hs.2.2; omega)
+        have := hs.2.1
+        have := hm.2.2
+        omega
+      generalize (encodeFor F P nice pr d d.size (d.size + 1) s).1 = s1 at hf he hpos
+      obtain ⟨hinv1, hu1, _⟩ := he
+      obtain ⟨h, hpr, hh, hsz, hple, hp0, hrp, hrd, hR, hpos', hra, hps1, hrc1, hol1⟩ := hinv1
+      have hW := wmax_val
+      cases hw : writeChunk pr d s1 with
+      | none => rw [hw] at hf; exact absurd hf (by simp)
+      | some r =>
+        obtain ⟨s', ev⟩ := r
+        rw [hw] at hf
+        simp only at hf
+        unfold writeChunk at hw
+        simp only at hw
+        split at hw
+        · exact absurd hw (by simp)
+        · next hbl =>
+          split at hw
+          · -- compressed chunk
+            next hcmp =>
+            simp only [Option.some.injEq, Prod.mk.injEq] at hw
+            obtain ⟨rfl, rfl⟩ := hw
+            obtain ⟨evs', hev, hok⟩ := finishLoop_ok FS P hP nice pr dictBuf hd1 hdb h32 fuel _ _ evs h false s1.c
+              s1.probs hf
+              ⟨h, rfl, hh, by show h.size + 0 = s1.p; rw [hh.1, Nat.add_zero], hple, hp0, hrp, hrd, hR, hpos', hra, rfl, rfl, rfl⟩
+              rfl rfl rfl rfl
+            refine ⟨_ :: evs', by rw [hev, List.reverse_cons, List.append_assoc]; rfl, ?_⟩
+            rw [hc] at hpr
+            rw [hc, hps] at hps1 hrc1
+            refine ⟨s1.c, h, sliceNat d h.size (d.size - h.size), ?_, ?_, hpos, hu1, ?_, ?_, ?_, ?_⟩
+            · exact hpr
+            · rw [hh.1]; omega
+            · rw [hrc1]
+            · omega
+            · have hx := extract_slice hh (a := h0.size) (by omega)
+              rw [← hh.1] at hx
+              rw [hx]
+              have := hh.1
+              exact sliceNat_split d h0.size h.size d.size (by omega) (by omega)
+            · rw [← hps1]
+              exact hok
+          · -- stored chunk
+            next hcmp =>
+            simp only [Option.some.injEq, Prod.mk.injEq] at hw
+            obtain ⟨rfl, rfl⟩ := hw
+            have hbase : s1.p + s1.ra - (s1.unc + s1.ra) = h0.size := by omega
+            rw [hbase] at hf
+            have hh0 : HistIs d h0.size h0 := by
+              -- the chunk's start history: `parseRun` of nothing from it
+              obtain ⟨hA, hprA, hhA, hszA, _⟩ := hinv
+              rw [hsy] at hprA
+              simp only [List.reverse_nil, parseRun] at hprA
+              cases hprA
+              rw [hsz0]
+              exact hhA
+            have hnew := pushAll_slice d (s1.unc + s1.ra) h0.size h0 hh0
+            have hpe : h0.size + (s1.unc + s1.ra) = s1.p + s1.ra := by omega
+            rw [hpe] at hnew
+            obtain ⟨evs', hev, hok⟩ := finishLoop_ok FS P hP nice pr dictBuf hd1 hdb h32 fuel _ _ evs
+              (Lzma2.pushAll h0 (sliceNat d h0.size (s1.unc + s1.ra))) true c ps hf
+              ⟨_, rfl, hnew, by show _ + 0 = s1.p + s1.ra; rw [hnew.1, Nat.add_zero], by show s1.p + s1.ra + 0 ≤ d.size; omega,
+                fun _ => rfl, repsLt_init _ (Nat.le_max_right _ 1), repsLt_init _ hd1, hR,
+                by show FS.pos s1.mf = s1.p + s1.ra + 0; rw [hpos', Nat.add_zero], Or.inl rfl, rfl, rfl, rfl⟩
+              rfl rfl rfl rfl
+            refine ⟨_ :: evs', by rw [hev, List.reverse_cons, List.append_assoc]; rfl, ?_⟩
+            refine ⟨sliceNat d (s1.p + s1.ra) (d.size - (s1.p + s1.ra)), ?_, ?_, ?_⟩
+            · rw [sliceNat_length]; omega
+            · rw [← hpe, ← sliceNat_append]
+              congr 1
+              omega
+            · rw [hnew.1] at hok
+              exact hok
+    · next hge =>
+      simp only [Option.some.injEq] at hf
+      refine ⟨[], by rw [← hf, List.append_nil], ?_⟩
+      have : d.size - h0.size = 0 := by omega
+      rw [this]
+      rfl
+
 end Seg
 
 end LzmaVerif.Lzma2W
